@@ -732,6 +732,24 @@ def _leading_tag(e):
 _MODULE_CONSTS = {}
 
 
+def r10(p, rep):
+    rep.rule("C04.R10", "one import alias names one module in all generated code (`import mlx.nn as mx` next to `import mlx.core as mx` would overwrite a name that is still needed)", "T-TAB over the traced import statements of all backends", floor=10)
+    by_name = {}
+    for f in list(p.funcs.values()):
+        for c in walk_no_nested(f.node):
+            if isinstance(c, ast.Call) and norm(c.func).endswith("python.import_") and c.args and isinstance(c.args[0], ast.Constant):
+                mod = c.args[0].value
+                as_ = common.kwarg(c, "as_")
+                if as_ is None and len(c.args) > 1:
+                    as_ = c.args[1]
+                name = as_.value if isinstance(as_, ast.Constant) and as_.value else mod
+                by_name.setdefault(name, []).append((mod, f, c))
+    for name, uses in sorted(by_name.items()):
+        mods = sorted({m for m, _, _ in uses})
+        for mod, f, c in uses:
+            rep.add("C04.R10", f"{f.qualname}:import:{mod}:as:{name}", f"{f.module.rel}:{c.lineno}", len(mods) == 1, f"`{name}` always stands for {mods[0]}" if len(mods) == 1 else f"the name `{name}` is used for the different modules {mods}: a graph that needs both gets two import statements binding the same name, and the later one silently replaces the earlier module in the generated function")
+
+
 def run(p, rep, tier):
     r1(p, rep)
     r2(p, rep)
@@ -741,6 +759,7 @@ def run(p, rep, tier):
     r6(p, rep)
     r8(p, rep)
     r9(p, rep)
+    r10(p, rep)
     rep.rule("C06.R1", "IR nodes compare every field (graph equality drives inline decisions and pattern matching)", "T-SIB (__init__ vs __eq__)", floor=30)
     c06.r1(p, rep)
     if tier == "thorough":
